@@ -14,14 +14,15 @@ META = {
     "level": "fault_enumeration",
     "engine": "E1 runtime scenario engine",
     "rule": (
-        "kind=product: systematic product of flavour (3) x failure kind (12 Exception subclasses incl. exceptions "
+        "kind=product: systematic product of flavour (3) x failure kind (12 Exception subclasses (also raised by the *call* of the payload, before any coroutine exists) incl. exceptions "
         "with mandatory arguments, exception groups, TimeoutError, StopIteration for thread payloads; 3-4 "
         "BaseException subclasses; 13 non-None return values incl. every falsy one) x registration (queued before "
         "start; adopted after start from an outside thread / from inside a payload of each flavour; run() of a "
         "service created before / after start / inside a payload) x failing at the first step or after a delay "
         "(quick: a seeded slice; thorough: all, under several injection seeds); kind=random: 0-5 bystanders of "
         "mixed flavour and state and 1-3 payloads failing within the same few milliseconds in the same or "
-        "different flavours, line-level delay injection; kind=control: no failing payload - payloads ending "
+        "different flavours, line-level delay injection, a fifth of them driving a bare MetaRunner; kind=rerun: the "
+        "same runner instance runs a second time with a failing payload queued between the runs; kind=control: no failing payload - payloads ending "
         "with None must not stop the runtime. Non-trivial = a `fail` event was observed; distinct by scenario."
     ),
     "assumptions": [
@@ -45,6 +46,8 @@ def failure_kinds(flavour):
         base.append("AsyncioCancelledError")
     kinds += [("raise", k, "base") for k in base]
     kinds += [("return", k, "exception") for k in common.RETURN_KINDS]
+    # the *call* of the payload raises: no coroutine / no first step ever exists
+    kinds += [("call_raises", k, "exception") for k in ("TypeError", "ValueError")]
     return kinds
 
 
@@ -64,15 +67,19 @@ def plan(tier, seed):
         specs = [dict(seed=seed, shard="product-%d" % i, kind="product", part=i, parts=12, repeat=3, n=1) for i in range(12)]
         specs += [dict(seed=seed, shard="random-%d" % i, kind="random", n=90) for i in range(16)]
         specs += [dict(seed=seed, shard="control-%d" % i, kind="control", n=20) for i in range(4)]
+        specs += [dict(seed=seed, shard="rerun-%d" % i, kind="rerun", n=30) for i in range(4)]
     else:
         specs = [dict(seed=seed, shard="product-%d" % i, kind="product", part=i, parts=8, stride=9, repeat=1, n=1) for i in range(8)]
         specs += [dict(seed=seed, shard="random-%d" % i, kind="random", n=8) for i in range(6)]
         specs += [dict(seed=seed, shard="control-0", kind="control", n=6)]
+        specs += [dict(seed=seed, shard="rerun-%d" % i, kind="rerun", n=6) for i in range(2)]
     del total
     return specs
 
 
 def failing_payload(pid, flavour, how, what, delayed, cleanup=None):
+    if how == "call_raises":
+        return {"id": pid, "flavour": flavour, "program": [], "call_raises": what, "cleanup": {"kind": "none"}}
     program = ([["sleep", 0.04]] if delayed else []) + [[how, what]]
     return {"id": pid, "flavour": flavour, "program": program, "cleanup": cleanup or {"kind": "none"}}
 
@@ -96,6 +103,8 @@ def place(gen, script, payload, reg, rnd):
             script.append(["adopt", carrier["id"]])
     else:
         svc = {"id": pid, "flavour": payload["flavour"], "program": payload["program"]}
+        if payload.get("call_raises"):  # a service's run is a method of the harness class: raise at its first step instead
+            svc["program"] = [["raise", payload["call_raises"]]]
         if reg == "service_before":
             svc["create"] = "before"
         elif reg == "service_after":
@@ -152,6 +161,24 @@ def gen_random_case(rnd, spec):
     return {"watchdog": 25, "inject": common.inject_conf(rnd, 0.8), "generations": [gen], "meta": {"kind": "random", "fail": fails, "meta_runner": meta_mode}}
 
 
+def gen_rerun_case(rnd, spec):
+    first = {"accept_delay": 0.03, "payloads": [common.bystander(rnd, "b0", when="queued")], "services": [], "grace": 0.2,
+             "mode": rnd.choice(["meta", None]), "script": [["wait_running", 8], ["sleep", 0.1]]}
+    if rnd.random() < 0.4:  # the first run ends by a failure instead of a shutdown
+        first["payloads"].append({"id": "first_fail", "flavour": rnd.choice(common.FLAVOURS), "program": [["raise", "LookupError"]], "when": "queued", "cleanup": {"kind": "none"}})
+        first["script"] = [["wait_running", 8], ["expect_end", PATIENCE]]
+    flavour = rnd.choice(common.FLAVOURS)
+    how, what, cls = rnd.choice([k for k in failure_kinds(flavour) if k[2] == "exception"])
+    p = failing_payload("f0", flavour, how, what, rnd.random() < 0.5)
+    p["when"] = "queued"  # registered between the two runs
+    second = {"accept_delay": 0.03, "payloads": [p], "services": [], "grace": 0.2, "reuse_runner": True, "mode": first["mode"],
+              "script": [["wait_running", 8], ["expect_end", PATIENCE]]}
+    if first["mode"] is None:
+        del first["mode"], second["mode"]
+    return {"watchdog": 30, "inject": common.inject_conf(rnd, 0.5), "generations": [first, second],
+            "meta": {"kind": "rerun", "fail": [[flavour, how, what, cls, "queued", False]], "judge_gen": 1}}
+
+
 def gen_control_case(rnd, spec):
     gen = {"accept_delay": 0.03, "payloads": [], "services": [], "grace": 0.2}
     script = [["wait_running", 8]]
@@ -173,8 +200,9 @@ def judge(case, run, result):
     if trouble:
         result.inconc(trouble)
         return []
-    fails = [e for e in run.of("fail", gen=0)]
-    ended = run.first("accept-ended", gen=0)
+    g = case["meta"].get("judge_gen", 0)
+    fails = [e for e in run.of("fail", gen=g)]
+    ended = run.first("accept-ended", gen=g)
     problems = []
     if case["meta"]["kind"] == "control":
         result.count("control_scenarios")
@@ -198,7 +226,9 @@ def judge(case, run, result):
     result.count("failures_observed", len(fails))
     first = min(e["seq"] for e in fails)
     specs = {"f%d" % i: f for i, f in enumerate(case["meta"]["fail"])}
-    if run.of("accept-still-running", gen=0) or ended is None:
+    if case["meta"]["kind"] == "rerun":
+        result.count("reruns_of_the_same_runner")
+    if run.of("accept-still-running", gen=g) or ended is None:
         who = ["%s %s(%s) via %s" % (specs[e["pid"].replace("svc:", "")][0], e["how"], e["what"], specs[e["pid"].replace("svc:", "")][4]) for e in fails]
         problems.append(("payload failed (%s) but accept kept running for %.0f s" % ("; ".join(who), PATIENCE), None))
         return problems
@@ -248,7 +278,7 @@ def run_shard(spec):
         gen = lambda i, rep: gen_product_case(core.rng(PID, spec["seed"], "product", i, rep), items[i])  # noqa: E731
     else:
         todo = [(i, 0) for i in range(spec["n"])]
-        g = gen_random_case if spec["kind"] == "random" else gen_control_case
+        g = {"random": gen_random_case, "control": gen_control_case, "rerun": gen_rerun_case}[spec["kind"]]
         gen = lambda i, rep: g(core.rng(PID, spec["seed"], spec["shard"], i), spec)  # noqa: E731
     for i, rep in todo:
         cid = i * 10 + rep
@@ -265,7 +295,7 @@ def run_shard(spec):
 
 
 def finish(total, tier):
-    need = ["scenarios_with_failure", "scenarios_driving_metarunner_directly", "strong_clause_checked", "base_clause_checked", "matched_exception", "matched_return", "control_scenarios"]
+    need = ["scenarios_with_failure", "scenarios_driving_metarunner_directly", "reruns_of_the_same_runner", "strong_clause_checked", "base_clause_checked", "matched_exception", "matched_return", "control_scenarios"]
     need += ["reg_" + r for r in REGISTRATIONS] + ["flavour_" + f for f in common.FLAVOURS]
     for name in need:
         if not total.counters.get(name) and not total.violations:
